@@ -171,6 +171,9 @@ def run(ctx):
         tr = replay(ctx, cases, p["n"], "bfs%d" % p["len"], 7 if not thorough else 11, validate=(len(cases) < 60000))
         first_trace = first_trace or (tr, p["n"])
     for s in sims:
+        if ctx.violations:
+            ctx.notes.append("violations found in the bounded-exhaustive replay; simulation phases skipped")
+            break
         r = ctx.tlc("TimeWheel_gen", "tw_gen.cfg", extra_files={"tw_gen.cfg": GEN_CFG % s}, workers=1, mode="sim",
                     sim="num=%d" % s["num"], depth=s["len"] + 1, timeout=600, seed=rng.randrange(1, 2 ** 31),
                     label="simulate length %d" % s["len"])
@@ -188,6 +191,8 @@ def run(ctx):
                        "plus seeded simulation); non-trivial = at least one key fires and at least one registration is refreshed or removed")
 
     # 3. binding self-test: a corrupted expectation and a corrupted trace must both be rejected
+    if ctx.violations:
+        return  # the binding has just demonstrated itself on a real deviation
     tr, n = first_trace
     bad_case = {"n": 3, "events": [{"ev": "add", "key": "k1", "d": 1}, {"ev": "tick", "fires": [], "now": 0},
                                    {"ev": "tick", "fires": [], "now": 1}]}  # the specification fires k1 at tick 1
